@@ -672,7 +672,25 @@ fn flatten_glyph(context: &Context, glyph: &Glyph) -> Result<(), BadGlyph> {
         }
         inst.components = simple;
     }
-    context.glyphs.set(glyph);
+    // Composing nested 2x2 transforms can leave the range a component can store (e.g. 1.5 x 1.5),
+    // which the glyph's cached transform checks - computed before flattening - cannot know about.
+    // Rebuild the glyph so they are recomputed, and fall back to contours just as for a
+    // component that overflows in the source.
+    let glyph = Glyph::new(
+        glyph.name.clone(),
+        glyph.emit_to_binary,
+        glyph.codepoints.clone(),
+        std::mem::take(glyph.sources_mut()),
+    )?;
+    let overflows = glyph.has_overflowing_component_transforms();
+    context.glyphs.set(glyph.clone());
+    if overflows {
+        log::debug!(
+            "Decomposing '{}': flattened component transforms overflow F2Dot14 [-2.0, 2.0] range",
+            glyph.name
+        );
+        convert_components_to_contours(context, &glyph)?;
+    }
     Ok(())
 }
 
